@@ -23,38 +23,47 @@ import itertools
 import time
 from collections import Counter
 
-from vlib import env
+from vlib import bfs, env
 from vlib import multifn_model as M
 from vlib.evidence import Result
 
 PROPERTY = "C18"
 LEVEL = "model_checking"
 BOUNDS = {
-    "quick": "hier: histories <=3 over 8 tags, <=4 over 5 keywords; bfs: every history of length <=3 (5 keywords / classes / "
-    "vectors) and <=5 (3 keywords), both hierarchy modes, call of every dispatch value after the last step; static: all "
-    "(methods,prefs,hierarchy) combinations reachable in <=3 steps x all insertion orders x 6 class-hash assignments; text: <=2",
-    "thorough": "hier: <=4 over 8 tags, <=6 over 5 keywords; bfs: length <=4 (5 keywords / classes / vectors) and <=7 (3 keywords), "
-    "both hierarchy modes; static: combinations reachable in <=4 steps; text: <=3",
+    "quick": "hier: every derive/underive history of length <=2 over 5 keywords + 3 classes and <=3 over 5 keywords; bfs: every "
+    "history of length <=3 over the 5-keyword, class and vector universes (vector universe with a private hierarchy: <=2) and <=5 "
+    "over the 3-keyword universe (<=4 with a private hierarchy), each with the global and with a private hierarchy, every dispatch value called after the last "
+    "step; static: every (methods, preferences, hierarchy) combination reachable in <=3 steps x every insertion order x 6 "
+    "class-hash assignments; text: <=2 (variants <=1)",
+    "thorough": "hier: <=3 over 8 tags, <=5 over 5 keywords; bfs: length <=4 (5 keywords, both modes; vectors global; classes "
+    "private), <=5 (classes, global), <=3 (vectors private), <=7 (3 keywords, both modes); static: combinations reachable in <=4 "
+    "steps; text: <=3 (variants <=2)",
 }
 RULE = (
-    "engine B: breadth-first search over operation histories; canonical state = (method keys, declared preferences, derive "
-    "edges, dispatch values cached since the last invalidation, stale-hierarchy snapshot); one shortest history per canonical "
-    "state is kept, and from every kept state EVERY operation of the alphabet is executed on a freshly built multimethod "
-    "(history replayed), followed by a call with every dispatch value of the universe; a case is distinct by (universe, "
-    "hierarchy mode, resulting canonical state); the universes are closed under renaming of the keywords, so every iteration "
-    "order of the method table is reached under the fixed hash seed; nothing is sampled"
+    "engine B: breadth-first search over operation histories (defmethod, remove-method, remove-all-methods, prefer-method, "
+    "derive, underive, call); canonical state = (method keys, declared preferences, derive edges, dispatch values cached since "
+    "the last invalidation, stale-hierarchy snapshot); one shortest history per canonical state is kept, and from every kept "
+    "state EVERY operation of the alphabet is executed on a freshly built multimethod (history replayed on new objects), followed "
+    "by a call with every dispatch value of the universe; a case is distinct by (universe, hierarchy mode, resulting canonical "
+    "state); the keyword universes are closed under renaming of the keywords, so every iteration order of the method table is "
+    "reached under the fixed hash seed; where classes are keys the table order is varied through six assignments of class hashes; "
+    "hierarchy values are searched breadth-first on the real values (dedup on the value); nothing is sampled"
 )
 ASSUMPTIONS = [
     "reference resolution: candidates = methods whose key isa?-covers the dispatch value; x precedes y iff (isa? x y) or "
     "(prefer-method x y) was declared (declared pairs only, no inheritance of preferences); the unique candidate preceding "
     "all others wins; no candidate -> default method, else an exception; otherwise an exception",
     "where a declared preference contradicts isa? among the candidates (prefer x y although y isa x) the property does not fix "
-    "the winner: any of the three consistent readings is accepted there, but isomorphic problems must get isomorphic answers",
+    "the winner: any of the three consistent readings is accepted there, but isomorphic problems must get isomorphic answers "
+    "and the answer may not depend on insertion order or table order",
     "descendants inverts derive relationships only (class inheritance is documented as unsupported there); a redundant but "
-    "non-cyclic derive is accepted; underive of a missing relationship is a no-op",
+    "non-cyclic derive is accepted; underive of a missing relationship is a no-op; a derive that would close a cycle is rejected",
     "two histories with the same canonical state are assumed to behave alike afterwards (one representative is extended); the "
     "hier part checks that a hierarchy value is a function of its derive edges, which justifies this for the hierarchy component",
-    "any exception class counts as 'raises'",
+    "derive and underive are pure functions of the hierarchy value: when a history is replayed, the value of an already executed "
+    "prefix of hierarchy operations is installed directly (the operation under test is always executed for real)",
+    "in the static part, insertion orders / hash assignments after the first only call dispatch values matched by >=2 methods",
+    "any exception class counts as 'raises'; the classes have fixed hash values (deterministic table order)",
 ]
 
 NS = "c18"
@@ -82,24 +91,43 @@ def universe(name):
         calls = keys
         dv = [(t, p) for t in tags for p in kws if t != p]
     elif name == "vec":
-        kws = ["k0", "k1"]
-        keys = [(x, y) for x in "AB" for y in "AB"] + [("k0", "A"), ("k1", "A")] + ["default"]
-        prefk = keys[:-1]
-        calls = keys + [("C", "C"), ("C", "B"), ("B", "C"), ("k0", "C"), ("k1", "C")]
+        # vectors of two tags: the four vectors over {A, B} and one keyword/class vector; dispatch values add
+        # vectors of subclasses and of a keyword that may be derived from the key's keyword
+        kws = []  # k0 / k1 play different roles here: no renaming symmetry is claimed
+        cv = [(x, y) for x in "AB" for y in "AB"]
+        keys = cv + [("k1", "A")] + ["default"]
+        prefk = None
+        prefs = [(x, y) for x in cv for y in cv if x != y]
+        calls = keys + [("C", "C"), ("C", "B"), ("B", "C"), ("k0", "C"), ("k0", "A")]
         dv = [("k0", "k1"), ("k1", "k0")]
     else:
         raise KeyError(name)
     ops = [("dm", k) for k in keys] + [("rm", k) for k in keys] + [("ra",)]
-    ops += [("pf", x, y) for x in prefk for y in prefk if x != y]
+    ops += [("pf", x, y) for x, y in (prefs if prefk is None else [(x, y) for x in prefk for y in prefk if x != y])]
     ops += [("dv", t, p) for t, p in dv] + [("ud", t, p) for t, p in dv] + [("call", d) for d in calls]
     return {"name": name, "kws": kws, "ops": ops, "probes": calls, "classes": name in ("cls", "vec")}
 
 
 TIERS = {
     # bfs: universe -> (history length bound with the global hierarchy, with a private hierarchy Var)
-    "quick": {"bfs": {"kw5": (3, 3), "kw3": (5, 5), "cls": (3, 3), "vec": (2, 2)}, "static": 3, "hier8": 2, "hier5": 4, "text": 2},
-    "thorough": {"bfs": {"kw5": (4, 4), "kw3": (7, 7), "cls": (4, 4), "vec": (4, 3)}, "static": 4, "hier8": 4, "hier5": 6, "text": 3},
+    # text: (bound for the plain defmulti, bound for the :hierarchy / :default variants)
+    "quick": {"bfs": {"kw5": (3, 3), "kw3": (5, 4), "cls": (3, 3), "vec": (3, 2)}, "static": 3, "hier8": 2, "hier5": 3, "text": (2, 1)},
+    "thorough": {"bfs": {"kw5": (4, 4), "kw3": (7, 7), "cls": (5, 4), "vec": (4, 3)}, "static": 4, "hier8": 3, "hier5": 5, "text": (3, 2)},
 }
+
+
+_FAIL_CAP = 60
+
+
+def _fail(res, kind, case, **kw):
+    """Result.fail with a cap per (kind, explanation, part, universe) and worker, so that thousands of cases
+    of one defect cannot crowd out a different failure; every case is still counted."""
+    part = case.get("part")
+    key = "%s|%s|%s|%s" % (kind, kw.get("explained_by", ""), part, case.get("universe", ""))
+    cnt = res.parts.setdefault("failure_counts", {})
+    cnt[key] = cnt.get(key, 0) + 1
+    if cnt[key] <= _FAIL_CAP:
+        res.fail(kind, case, **kw)
 
 
 def J(t):
@@ -171,6 +199,7 @@ class Binding:
             self.var = self.gvar
         self.fns = {}
         self.m = None
+        self.hmemo = {}
 
     # -- tags
     def real(self, t):
@@ -233,6 +262,18 @@ class Binding:
         except Exception as e:  # noqa
             return type(e).__name__
         return None
+
+    def apply_prefix(self, op, hkey):
+        """A derive / underive that is NOT the operation under test: derive and underive are pure functions
+        of the hierarchy value, so the value computed the first time this prefix of hierarchy operations was
+        executed is installed directly (the multimethod observes the same sequence of hierarchy values)."""
+        v = self.hmemo.get(hkey)
+        if v is None:
+            self.apply(op)
+            if len(self.hmemo) < 300000:
+                self.hmemo[hkey] = self.var.value
+        else:
+            self.var.bind_root(v)
 
     def call(self, d, m=None):
         m = self.m if m is None else m
@@ -304,14 +345,6 @@ def single_pass(order, prefs, edges, d, methods):
     return ("ok", best)
 
 
-def weak_class_edges(edges):
-    """Defect model: a class does not inherit what its superclasses were derived from.
-    Expressed as an edge set in which that is true: derive edges of classes are dropped for their subclasses
-    by rewriting the class chain (the model's isa follows bases, so remove derive edges that start at a class
-    and re-add them only for the class itself through a private alias)."""
-    return edges  # the comparison is done in `explain` with a dedicated isa
-
-
 def weak_isa(edges, x, y):
     if x == y:
         return True
@@ -350,22 +383,17 @@ def explain(got, order, methods, prefs, edges, d):
 
 
 def bfs_states(uni, depth):
-    """Canonical states reachable in < depth steps, one shortest history each (model only)."""
-    ops = uni["ops"]
-    seen = {M.EMPTY_STATE: ()}
-    order = [((), M.EMPTY_STATE)]
-    frontier = [((), M.EMPTY_STATE)]
-    for _ in range(1, depth):
-        nxt = []
-        for hist, s in frontier:
-            for op in ops:
-                s2, _r = M.step(s, op)
-                if s2 not in seen:
-                    h2 = hist + (op,)
-                    seen[s2] = h2
-                    nxt.append((h2, s2))
-        order.extend(nxt)
-        frontier = nxt
+    """Canonical states reachable in < depth steps, one shortest history each (model only; engine B driver)."""
+    order = []
+    if depth >= 1:
+        bfs.search(
+            ((), M.EMPTY_STATE),
+            lambda st: uni["ops"],
+            lambda st, op: (st[0] + (op,), M.step(st[1], op)[0]),
+            depth - 1,
+            canon=lambda st: st[1],
+            on_state=lambda st, d: order.append(st),
+        )
     return order
 
 
@@ -373,7 +401,7 @@ def abstract(out):
     return out if out[0] == "ok" else ("err",)
 
 
-def check_probes(b, uni, static, res, case, eq, m=None, probes=None):
+def check_probes(b, uni, static, res, case, eq, m=None, probes=None, get_method_on_error=False):
     """Call the multimethod with every dispatch value and compare with the reference resolution."""
     methods, prefs, edges = static
     order = None
@@ -385,14 +413,19 @@ def check_probes(b, uni, static, res, case, eq, m=None, probes=None):
         acc, contradicted = M.resolve(methods, prefs, edges, d)
         acc_abs = {abstract(a) for a in acc}
         g = abstract(got)
-        ncand = sum(1 for k in methods if M.isa(edges, d, k))
+        cands = [k for k in methods if M.isa(edges, d, k)]
+        ncand = len(cands)
+        if ncand >= 2:
+            only = next(iter(acc)) if len(acc) == 1 else None
+            by_pref = only is not None and only[0] == "ok" and any(k != only[1] and not M.isa(edges, only[1], k) for k in cands)
+            res.part("probes", two_or_more_candidates=1, three_or_more_candidates=int(ncand >= 3), decided_by_a_preference=int(by_pref), ambiguous=int(only is not None and only[0] == "err"), preference_contradicts_isa=int(contradicted))
         res.outcomes.add((got[0], got[1] if got[0] == "err" else ("exact" if d in methods else "default" if got[1] == "default" else "inherited"), min(ncand, 3)))
         if got[0] == "bad" or g not in acc_abs:
             if order is None:
                 order = b.table_order(m)
             c = dict(case)
             c["probe"] = J(d)
-            res.fail(
+            _fail(res, 
                 "wrong-method",
                 c,
                 got=J(got),
@@ -406,48 +439,61 @@ def check_probes(b, uni, static, res, case, eq, m=None, probes=None):
         if contradicted:
             key, maps = M.canon_problem(methods, prefs, edges, d, uni["kws"])
             co = M.canon_outcome(got if got[0] == "ok" else ("err",), maps)
-            c = dict(case)
-            c["probe"] = J(d)
-            eq.setdefault(key, {}).setdefault(co, c)
+            if co not in eq.setdefault(key, {}):
+                c = dict(case)
+                c["probe"] = J(d)
+                c["table_order"] = J(tuple(b.table_order(m)))
+                c["answer"] = J(abstract(got))
+                eq[key][co] = c
         # get-method must name the same method
+        if got[0] != "ok" and not get_method_on_error:
+            continue
         gm = b.get_method(d, m)
         res.transitions += 1
         if got[0] == "ok":
             if gm != got:
                 c = dict(case)
                 c["probe"] = J(d)
-                res.fail("get-method-disagrees-with-call", c, call=J(got), get_method=J(gm))
+                _fail(res, "get-method-disagrees-with-call", c, call=J(got), get_method=J(gm))
         elif gm[0] not in ("nil", "err"):
             c = dict(case)
             c["probe"] = J(d)
-            res.fail("get-method-disagrees-with-call", c, call=J(got), get_method=J(gm))
+            _fail(res, "get-method-disagrees-with-call", c, call=J(got), get_method=J(gm))
     return tuple(answers)
 
 
-def check_edge(b, uni, hist, res, eq, counters=None):
+def check_edge(b, uni, hist, res, eq):
     """Rebuild `hist` on fresh objects (the last operation is the edge under test), then probe."""
     b.fresh()
     s = M.EMPTY_STATE
     last = len(hist) - 1
     case = {"part": "bfs", "universe": uni["name"], "mode": b.mode, "variant": b.variant, "history": [J(o) for o in hist]}
+    hkey = ()
     for i, op in enumerate(hist):
+        if i != last and op[0] in ("dv", "ud"):
+            hkey = hkey + (op,)
+            s2, must = M.step(s, op)
+            b.apply_prefix(op, hkey)
+            s = s2
+            res.transitions += 1
+            continue
         if op[0] == "call":
             acc, _c = M.resolve(s[0], s[1], s[2], op[1])
             exc = b.apply(op)
             if i == last:  # earlier calls were judged when they were the last operation
                 if exc and ("err",) not in {abstract(a) for a in acc}:
-                    res.fail("call-raised", case, exc=exc, reference=sorted(J(a) for a in acc), explained_by=explain(("err", exc), b.table_order(), s[0], s[1], s[2], op[1]))
+                    _fail(res, "call-raised", case, exc=exc, reference=sorted(J(a) for a in acc), explained_by=explain(("err", exc), b.table_order(), s[0], s[1], s[2], op[1]))
                 if not exc and all(a[0] == "err" for a in acc):
-                    res.fail("call-did-not-raise", case, reference=sorted(J(a) for a in acc))
+                    _fail(res, "call-did-not-raise", case, reference=sorted(J(a) for a in acc))
             s, _ = M.step(s, op)
         else:
             s2, must = M.step(s, op)
             exc = b.apply(op)
             if i == last:
                 if must and not exc:
-                    res.fail("operation-not-rejected", case, op=J(op))
+                    _fail(res, "operation-not-rejected", case, op=J(op))
                 elif exc and not must:
-                    res.fail("operation-raised", case, op=J(op), exc=exc)
+                    _fail(res, "operation-raised", case, op=J(op), exc=exc)
                 res.outcomes.add(("op", op[0], exc or "ok"))
             if exc and not must:
                 s2 = s  # keep going on what the implementation did; already reported when it was the last op
@@ -457,13 +503,13 @@ def check_edge(b, uni, hist, res, eq, counters=None):
     # observable tables
     mk = b.methods_keys()
     if mk != s[0]:
-        res.fail("methods-table-differs", case, got=sorted(map(repr, mk)), expected=sorted(map(repr, s[0])))
+        _fail(res, "methods-table-differs", case, got=sorted(map(repr, mk)), expected=sorted(map(repr, s[0])))
     pf = b.prefs()
     if pf != s[1]:
-        res.fail("prefers-table-differs", case, got=sorted(map(repr, pf)), expected=sorted(map(repr, s[1])))
+        _fail(res, "prefers-table-differs", case, got=sorted(map(repr, pf)), expected=sorted(map(repr, s[1])))
     ed = b.edges()
     if ed != s[2]:
-        res.fail("hierarchy-parents-differ", case, got=sorted(map(repr, ed)), expected=sorted(map(repr, s[2])))
+        _fail(res, "hierarchy-parents-differ", case, got=sorted(map(repr, ed)), expected=sorted(map(repr, s[2])))
     check_probes(b, uni, static, res, case, eq)
     res.evaluations += 1
     return s
@@ -520,17 +566,24 @@ def check_static(bs, uni, st, res, eq, orders=None):
     methods, prefs, edges = st
     items = [("dm", k) for k in sorted(methods, key=repr)] + [("pf", x, y) for x, y in sorted(prefs, key=repr)]
     answers = {}
+    # after the first build (sorted insertion order, first hash assignment, every dispatch value) the further
+    # insertion orders / hash assignments only call the dispatch values that at least two methods match:
+    # with fewer candidates there is nothing an order could decide
+    multi = [d for d in uni["probes"] if sum(1 for k in methods if M.isa(edges, d, k)) >= 2]
+    first = True
     for b in bs:
-        if b.variant and len(methods) < 2:
-            continue  # the iteration order of a table with fewer than two methods cannot matter
+        if not first and not multi:
+            break
         b.var.bind_root(b.f_make())
         for t, p in topo_edges(edges):
             exc = b.apply(("dv", t, p))
             res.transitions += 1
             if exc:
-                res.fail("operation-raised", {"part": "static", "universe": uni["name"], "variant": b.variant, "methods": J(tuple(sorted(methods, key=repr))), "prefs": J(tuple(sorted(prefs, key=repr))), "edges": J(tuple(topo_edges(edges)))}, op=J(("dv", t, p)), exc=exc)
+                _fail(res, "operation-raised", {"part": "static", "universe": uni["name"], "variant": b.variant, "methods": J(tuple(sorted(methods, key=repr))), "prefs": J(tuple(sorted(prefs, key=repr))), "edges": J(tuple(topo_edges(edges)))}, op=J(("dv", t, p)), exc=exc)
         perms = itertools.permutations(items) if (b.variant == 0 and len(items) <= 4) else [tuple(items)]
         for perm in perms:
+            if not first and not multi:
+                break
             m = b.new_multi()
             bad = False
             for op in perm:
@@ -547,18 +600,29 @@ def check_static(bs, uni, st, res, eq, orders=None):
                 "insertion": [J(o) for o in perm],
             }
             if bad:
-                res.fail("operation-raised", case)
+                _fail(res, "operation-raised", case)
                 continue
-            ans = check_probes(b, uni, st, res, case, eq, m=m)
+            probes = uni["probes"] if first else multi
+            ans = check_probes(b, uni, st, res, case, eq, m=m, probes=probes, get_method_on_error=first)
+            if first:
+                ans = tuple(a for d, a in zip(probes, ans) if d in multi)
+            first = False
             res.evaluations += 1
             if orders is not None and len(methods) == 3:
                 orders.setdefault(methods, set()).add(tuple(b.table_order(m)))
             # differential: identical answers whatever the insertion order / hash assignment
-            answers.setdefault(ans, case)
+            if ans not in answers:
+                case["table_order"] = J(tuple(b.table_order(m)))
+                answers[ans] = case
     if len(answers) > 1:
         (a1, c1), (a2, c2) = list(answers.items())[:2]
-        diff = [J(d) for d, x, y in zip(uni["probes"], a1, a2) if x != y]
-        res.fail("answer-depends-on-insertion-or-table-order", c1, other=c2, differing_dispatch_values=diff)
+        diff = [d for d, x, y in zip(multi, a1, a2) if x != y]
+        expl = "single-pass-best-so-far-selection"
+        for c, a in ((c1, a1), (c2, a2)):
+            for d, x in zip(multi, a):
+                if d in diff and abstract(single_pass([T(k) for k in c["table_order"]], prefs, edges, d, methods)) != x:
+                    expl = ""
+        _fail(res, "answer-depends-on-insertion-or-table-order", c1, other=c2, differing_dispatch_values=[J(d) for d in diff], explained_by=expl)
 
 
 def run_static_shard(args):
@@ -626,19 +690,19 @@ def check_hier_value(b, uni, h, edges, res, case):
             ps = b.names(b.f_parents(h, rt))
             an = b.names(b.f_ancestors(h, rt))
         except Exception as e:  # noqa
-            res.fail("hierarchy-query-raised", case, tag=t, exc=type(e).__name__)
+            _fail(res, "hierarchy-query-raised", case, tag=t, exc=type(e).__name__)
             continue
         res.transitions += 2
         anc_got[t] = an
         exp_p = frozenset(M.parents_of(edges, t))
         exp_a = M.ancestors_of(edges, t)
         if ps != exp_p:
-            res.fail("parents-differ-from-derive-history", case, tag=t, got=sorted(map(repr, ps)), expected=sorted(map(repr, exp_p)))
+            _fail(res, "parents-differ-from-derive-history", case, tag=t, got=sorted(map(repr, ps)), expected=sorted(map(repr, exp_p)))
         if an != exp_a:
             expl = ""
             if M.is_class(t) and an == frozenset(x for x in exp_a if weak_isa(edges, t, x)):
                 expl = "class-does-not-inherit-derived-ancestors-of-superclasses"
-            res.fail("ancestors-not-transitive-closure-of-parents", case, tag=t, got=sorted(map(repr, an)), expected=sorted(map(repr, exp_a)), explained_by=expl)
+            _fail(res, "ancestors-not-transitive-closure-of-parents", case, tag=t, got=sorted(map(repr, an)), expected=sorted(map(repr, exp_a)), explained_by=expl)
         try:
             de = b.names(b.f_descendants(h, rt))
             res.transitions += 1
@@ -646,38 +710,37 @@ def check_hier_value(b, uni, h, edges, res, case):
             if M.is_class(t) and type(e).__name__ == "TypeError":
                 de = None  # documented: descendants of classes are not supported
             else:
-                res.fail("hierarchy-query-raised", case, tag=t, exc=type(e).__name__)
+                _fail(res, "hierarchy-query-raised", case, tag=t, exc=type(e).__name__)
                 de = None
         if de is not None and not M.is_class(t):
             req, allowed = M.descendants_required(edges, t), M.descendants_allowed(edges, t)
             if not (req <= de <= allowed):
-                res.fail("descendants-not-inverse-of-ancestors", case, tag=t, got=sorted(map(repr, de)), required=sorted(map(repr, req)))
+                _fail(res, "descendants-not-inverse-of-ancestors", case, tag=t, got=sorted(map(repr, de)), required=sorted(map(repr, req)))
     for x in tags:
         for y in tags:
             try:
                 got = bool(b.f_isa(h, b.real(x), b.real(y)))
             except Exception as e:  # noqa
-                res.fail("hierarchy-query-raised", case, tag=[x, y], exc=type(e).__name__)
+                _fail(res, "hierarchy-query-raised", case, tag=[x, y], exc=type(e).__name__)
                 continue
             res.transitions += 1
             exp = M.isa(edges, x, y)
             res.outcomes.add(("isa", got, M.is_class(x), M.is_class(y)))
             if got != exp:
                 expl = "class-does-not-inherit-derived-ancestors-of-superclasses" if got == weak_isa(edges, x, y) else ""
-                res.fail("isa-differs-from-closure", case, x=x, y=y, got=got, expected=exp, explained_by=expl)
+                _fail(res, "isa-differs-from-closure", case, x=x, y=y, got=got, expected=exp, explained_by=expl)
             # consistency with the implementation's own ancestors answer
             if x in anc_got and x != y and not (M.is_class(x) and M.is_class(y)) and got != (y in anc_got[x]):
-                res.fail("isa-inconsistent-with-ancestors", case, x=x, y=y, isa=got, ancestors=sorted(map(repr, anc_got[x])))
+                _fail(res, "isa-inconsistent-with-ancestors", case, x=x, y=y, isa=got, ancestors=sorted(map(repr, anc_got[x])))
     # vectors: pointwise
-    vt = [tags[0], tags[-1] if M.is_class(tags[-1]) else tags[1]]
-    for v1 in itertools.product(vt, repeat=2):
-        for v2 in itertools.product(vt, repeat=2):
-            got = bool(b.f_isa(h, b.real(v1), b.real(v2)))
-            res.transitions += 1
-            exp = M.isa(edges, v1, v2)
-            if got != exp:
-                expl = "class-does-not-inherit-derived-ancestors-of-superclasses" if got == weak_isa(edges, v1, v2) else ""
-                res.fail("isa-differs-from-closure", case, x=J(v1), y=J(v2), got=got, expected=exp, explained_by=expl)
+    x, y = tags[0], tags[-1] if M.is_class(tags[-1]) else tags[1]
+    for v1, v2 in (((x, x), (y, y)), ((y, y), (x, x)), ((x, y), (y, y)), ((y, x), (x, x)), ((x, y), (y, x)), ((x, y), (x, y))):
+        got = bool(b.f_isa(h, b.real(v1), b.real(v2)))
+        res.transitions += 1
+        exp = M.isa(edges, v1, v2)
+        if got != exp:
+            expl = "class-does-not-inherit-derived-ancestors-of-superclasses" if got == weak_isa(edges, v1, v2) else ""
+            _fail(res, "isa-differs-from-closure", case, x=J(v1), y=J(v2), got=got, expected=exp, explained_by=expl)
 
 
 _HIER_SEEN = set()  # value keys checked in earlier levels (inherited by forked workers)
@@ -720,10 +783,10 @@ def run_hier_shard(args):
                 e2 = edges - {(op[1], op[2])}
             res.outcomes.add(("hop", op[0], exc or "ok"))
             if must and not exc:
-                res.fail("cyclic-derive-not-rejected", case)
+                _fail(res, "cyclic-derive-not-rejected", case)
                 continue
             if exc and not must:
-                res.fail("operation-raised", case, op=J(op), exc=exc)
+                _fail(res, "operation-raised", case, op=J(op), exc=exc)
                 continue
             if exc:
                 continue
@@ -746,7 +809,7 @@ def run_hier(which, depth, res, seed):
     rel_of_value = {}
     nvalues = 1
     for level in range(1, depth + 1):
-        nsh = max(1, min(64, len(frontier) // 4))
+        nsh = max(1, min(env.ncores(), len(frontier) // 8))
         shards = [(which, frontier[(i + seed) % nsh :: nsh]) for i in range(nsh)]
         nxt = {}
         for r, found in env.parallel(run_hier_shard, shards):
@@ -841,9 +904,9 @@ def check_text(hist, mode, default, uni, res, ev_box):
             res.transitions += 1
             if op[0] != "call":
                 if must and not exc:
-                    res.fail("operation-not-rejected", case, op=J(op))
+                    _fail(res, "operation-not-rejected", case, op=J(op))
                 if exc and not must:
-                    res.fail("operation-raised", case, op=J(op), exc=exc)
+                    _fail(res, "operation-raised", case, op=J(op), exc=exc)
                     s2 = s
             s = s2
         for d in uni["probes"] + (["plain"] if default != "default" else []):
@@ -860,9 +923,9 @@ def check_text(hist, mode, default, uni, res, ev_box):
             if got not in {abstract(a) for a in acc}:
                 c = dict(case)
                 c["probe"] = J(d)
-                res.fail("wrong-method", c, got=J(got), reference=sorted(J(a) for a in acc), forms=forms)
+                _fail(res, "wrong-method", c, got=J(got), reference=sorted(J(a) for a in acc), forms=forms)
     except Exception as e:  # noqa
-        res.fail("text-history-failed", case, exc=type(e).__name__, msg=str(e)[:200], forms=forms)
+        _fail(res, "text-history-failed", case, exc=type(e).__name__, msg=str(e)[:200], forms=forms)
     res.evaluations += 1
 
 
@@ -930,39 +993,72 @@ def run(tier, seed):
         res.part("plan:%s:static" % name, static_combinations=len(st), step_bound=sdepth)
     uni3 = universe("kw3")
     jobs = []
-    for h, _s in bfs_states(uni3, cfg["text"] + 1):
-        for mode, default in (("global", "default"), ("private", "default"), ("global", "dflt2")):
-            jobs.append((h, mode, default))
+    for h, _s in bfs_states(uni3, cfg["text"][0] + 1):
+        jobs.append((h, "global", "default"))
+    for h, _s in bfs_states(uni3, cfg["text"][1] + 1):
+        jobs.append((h, "private", "default"))
+        jobs.append((h, "global", "dflt2"))
     nsh = max(1, min(16, len(jobs) // 20))
     for i in range(nsh):
         shards.append(("text", ("kw3", jobs[i::nsh])))
 
-    # longest shards first
+    # few, equally loaded worker processes (every fork pays for copy-on-write of the bootstrapped heap):
+    # longest task first into the least loaded of 2 x cores bins
     def cost(sh):
         kind, a = sh
         if kind == "bfs":
-            return len(a[3]) * len(universe(a[0])["ops"])
+            return len(a[3]) * len(universe(a[0])["ops"]) * (4 if a[0] == "vec" else 1)
         if kind == "static":
-            return len(a[1]) * 40
-        return len(a[1]) * 60
+            return len(a[1]) * {"vec": 60, "cls": 10}.get(a[0], 4)
+        return len(a[1]) * 100
 
     shards.sort(key=cost, reverse=True)
-    for r, eq in env.parallel(run_any_shard, shards):
+    nb = max(1, min(len(shards), 2 * env.ncores()))
+    bins = [[0, []] for _ in range(nb)]
+    for sh in shards:
+        bn = min(bins, key=lambda x: x[0])
+        bn[0] += cost(sh)
+        bn[1].append(sh)
+    for r, eq in env.parallel(run_bin, [bn[1] for bn in bins]):
         res.merge(r)
         merge_eq(eq_total, eq)
 
     # equivariance of the answers where preference and isa? contradict each other
     ncontra = 0
-    for key, outs in eq_total.items():
+    eqres = Result()
+    for key, outs in sorted(eq_total.items()):
         ncontra += 1
         if len(outs) > 1:
             (o1, c1), (o2, c2) = sorted(outs.items())[:2]
-            res.fail("isomorphic-problems-answered-differently", {"part": "equivariance", "a": c1, "b": c2}, answer_a=J(o1), answer_b=J(o2), explained_by="single-pass-best-so-far-selection")
+            expl = "single-pass-best-so-far-selection" if all(_single_pass_explains(c) for c in (c1, c2)) else ""
+            _fail(eqres, "isomorphic-problems-answered-differently", {"part": "equivariance", "universe": c1["universe"], "a": c1, "b": c2}, answer_a=J(o1), answer_b=J(o2), explained_by=expl)
+    res.failures[:0] = eqres.failures
+    res.part("failure_counts", **eqres.parts.get("failure_counts", {}))
     res.part("equivariance", contradicted_problem_classes=ncontra)
     gvar.bind_root(env.core_fn("make-hierarchy")())
     b = Binding()
+    res.sample({"universe": "vec", "history": ["(defmethod m [A B] ..)", "(defmethod m [B A] ..)", "(defmethod m [B B] ..)"], "call": "(m [C C])", "reference": "method [B B]: it is isa? both others, which are incomparable; must hold for every table order"})
+    res.sample({"universe": "kw3", "history": ["(defmethod m ::k1 ..)", "(defmethod m :default ..)", "(m ::k2)", "(derive ::k2 ::k1)"], "call": "(m ::k2)", "reference": "method ::k1 (the cached default answer is stale)"})
+    res.sample({"universe": "cls", "history": ["(defmethod m A ..)", "(defmethod m B ..)", "(prefer-method m A B)"], "call": "(m C)", "reference": "preference contradicts isa?: A, B or an exception accepted, but the same answer for every table order"})
     res.sample({"history": ["(derive ::k0 ::k1)", "(defmethod m ::k1 ...)", "(m ::k0)"], "reference": "method ::k1 (inherited)", "real_keywords_in_table_order": [repr(k) for k in __import__("basilisp.lang.map", fromlist=["map"]).map({b.obj["k%d" % i]: 1 for i in range(5)}).keys()]})
     return res
+
+
+def _single_pass_explains(c):
+    """Does a best-so-far scan in the recorded table order give the recorded answer of this case?"""
+    methods, prefs, edges = _problem(c)
+    sp = single_pass([T(k) for k in c["table_order"]], prefs, edges, T(c["probe"]), methods)
+    return J(abstract(sp)) == c["answer"]
+
+
+def run_bin(tasks):
+    res = Result()
+    eq_total = {}
+    for sh in tasks:
+        r, eq = run_any_shard(sh)
+        res.merge(r)
+        merge_eq(eq_total, eq)
+    return res.compact(), eq_total
 
 
 def run_any_shard(sh):
